@@ -299,6 +299,7 @@ class Context:
                 return obj
             if proto is NULL or proto is None:
                 obj._prototype = None
+                obj._null_prototype = True
             elif isinstance(proto, JSObject):
                 ancestor = proto
                 while isinstance(ancestor, JSObject):
@@ -306,6 +307,7 @@ class Context:
                         raise JSTypeError("Cyclic __proto__ value")
                     ancestor = ancestor._prototype
                 obj._prototype = proto
+                obj._null_prototype = False
             return obj
 
         def define_property(*args):
@@ -358,6 +360,7 @@ class Context:
             obj = JSObject()
             if proto is NULL or proto is None:
                 obj._prototype = None
+                obj._null_prototype = True
             elif isinstance(proto, JSObject):
                 obj._prototype = proto
             else:
@@ -1510,7 +1513,8 @@ class Context:
                 return _memo[id(value)]
             try:
                 if isinstance(value, dict):
-                    obj = JSObject()
+                    # (inherits from this context's Object.prototype, like a literal)
+                    obj = JSObject(self._object_prototype)
                     _memo[id(value)] = obj
                     for k, v in value.items():
                         obj.set(str(k), self._to_js(v, _memo))
